@@ -27,7 +27,7 @@ def results(out):
     return ok, lines
 
 
-def add(wt, n, sid, prop, cfg, needs):
+def add(wt, n, sid, prop, cfg, needs, release=False):
     out = os.path.join(wt, "out")
     patch = os.path.join(out, f"patch{n}.diff")
     demo = os.path.join(out, f"demo{n}.rs")
@@ -47,11 +47,12 @@ def add(wt, n, sid, prop, cfg, needs):
         sh("git checkout -- src", cwd=wt)
         return 1
     shutil.copy(demo, os.path.join(wt, "tests", f"seeded_demo{n}.rs"))
-    r = sh(f"cargo test --offline --test seeded_demo{n} 2>&1", cwd=wt, env=flags)
+    rel = " --release" if release else ""
+    r = sh(f"cargo test --offline{rel} --test seeded_demo{n} 2>&1", cwd=wt, env=flags)
     okp, lines = results(r.stdout)
     log["demo_with_patch"] = lines
     sh("git checkout -- src", cwd=wt)
-    r2 = sh(f"cargo test --offline --test seeded_demo{n} 2>&1", cwd=wt, env=flags)
+    r2 = sh(f"cargo test --offline{rel} --test seeded_demo{n} 2>&1", cwd=wt, env=flags)
     okc, lines2 = results(r2.stdout)
     log["demo_without_patch"] = lines2
     os.remove(os.path.join(wt, "tests", f"seeded_demo{n}.rs"))
@@ -129,7 +130,7 @@ def main():
     if a[0] == "add":
         cfg = "--cfg" in a
         needs = a[a.index("--needs") + 1] if "--needs" in a else ""
-        sys.exit(add(a[1], a[2], a[3], a[4], cfg, needs))
+        sys.exit(add(a[1], a[2], a[3], a[4], cfg, needs, "--release" in a))
     if a[0] == "run":
         checks = a[a.index("--checks") + 1].split(",") if "--checks" in a else None
         tier = a[a.index("--tier") + 1] if "--tier" in a else "quick"
